@@ -109,4 +109,66 @@ example : (runAll (c0 true) [.getPiece 1, .iterAbandon 1, .iterFull, .verifyPiec
 example : (runAll { c0 true with cap := 1 } [.iterFull, .getPiece 0] []).map (·.2) = [2, 2] := by
   decide
 
+/-! ### histories in which the stored piece hashes are replaced between operations -/
+
+/-- The stored hashes are an argument of `verify_piece`, not state of the stream object: in a
+    history that also replaces `info['pieces']` between operations, every operation answers what a
+    fresh object answers with the hashes stored *at that moment*. -/
+theorem C19_history_hashes [BEq δ] (c : Cfg α δ) (hfix : c.fix = true) (ss : List (Step δ)) :
+    (runAllS c ss []).map (·.1) = freshAllS c ss :=
+  runAllS_out c hfix ss []
+
+/-- … and the handle bound is not affected by such replacements. -/
+theorem C19_open_bound_history_hashes [BEq δ] (c : Cfg α δ) (ss : List (Step δ)) :
+    ∀ r ∈ runAllS c ss [], r.2 ≤ c.cap + 1 :=
+  runAllS_bound c ss [] (by simp)
+
+/-- non-vacuity: `verify_piece 1` is `true`, after the stored hash of piece 1 was replaced it is
+    `false` on the same object, after the hashes were removed it is a ValueError -/
+example : (runAllS (c0 true) [.op (.verifyPiece 1), .setStored [6, 0, 15], .op (.verifyPiece 1),
+      .setStored [], .op (.verifyPiece 1)] []).map (·.1)
+    = [.bool true, .none, .bool false, .none, .err .value] := by
+  decide
+
+/-! ### damaged disks: the `_MissingPieces` record is created per `iter_pieces()` call -/
+
+/-- On a disk with missing / mis-sized files a complete sequential iteration answers
+    `Missing.iterItems L sizes disk` — a function of piece length, layout and disk only (C10 proves
+    what it is) — whatever iterations the object has performed before. -/
+theorem C19_damaged_iter_independent (L : Nat) (sizes : List Nat) (disk : List (Option (List α)))
+    (m : MRec) (_h : ReachM true L sizes disk m) :
+    (iterDamaged true L sizes disk m).1 = (iterDamaged true L sizes disk {}).1 := rfl
+
+theorem C19_damaged_iter_spec (L : Nat) (sizes : List Nat) (disk : List (Option (List α)))
+    (m : MRec) (_h : ReachM true L sizes disk m) :
+    (iterDamaged true L sizes disk m).1 = Missing.iterItems L sizes disk := rfl
+
+/-- files of 5, 5, 1, 8, 3 bytes, piece length 4, file 1 missing: its last piece (2) also holds
+    the by-catch file 2 and the first byte of file 3 -/
+def dSizes : List Nat := [5, 5, 1, 8, 3]
+def dDisk : List (Option (List Nat)) :=
+  [some [0, 1, 2, 3, 4], none, some [10], some [11, 12, 13, 14, 15, 16, 17, 18], some [19, 20, 21]]
+
+/-- One `_MissingPieces` record per stream object (instead of per call) is *not* history
+    independent: the second complete iteration reports fewer `None` pieces, so every later piece
+    shifts (model-level image of the seeded regression C19/a). -/
+theorem C19_shared_missing_counterexample :
+    ¬ ∀ (m : MRec), ReachM false 4 dSizes dDisk m →
+      ((iterDamaged false 4 dSizes dDisk m).1.map fun its => its.map (·.data))
+        = ((iterDamaged false 4 dSizes dDisk {}).1.map fun its => its.map (·.data)) := by
+  intro h
+  have := h _ (.step .init)
+  revert this
+  decide
+
+/-- non-vacuity / what the current code answers there: six items, pieces 1 and 2 are `None` -/
+example : ((iterDamaged true 4 dSizes dDisk {}).1.map fun its => its.map (·.data))
+    = some [some [0, 1, 2, 3], none, none, some [12, 13, 14, 15], some [16, 17, 18, 19], some [20, 21]] := by
+  decide
+/-- … and what an object with a shared record answers the second time: one `None` fewer -/
+example : ((iterDamaged false 4 dSizes dDisk (iterDamaged false 4 dSizes dDisk {}).2).1.map
+      fun its => its.map (·.data))
+    = some [some [0, 1, 2, 3], none, some [12, 13, 14, 15], some [16, 17, 18, 19], some [20, 21]] := by
+  decide
+
 end Torf.C19
